@@ -37,17 +37,34 @@ type Filt struct {
 	On   bool     `json:"on"`
 	Keep []string `json:"keep"`
 }
+
+// ViewC: selection criteria (m*: name or wildcard pattern, kind, unit, description, scope name /
+// version / schema URL; "" = not given) and stream mask (name, unit, desc, agg, filt; "" = keep).
 type ViewC struct {
 	MName string `json:"mname"`
 	MKind string `json:"mkind"`
+	MUnit string `json:"munit"`
+	MDesc string `json:"mdesc"`
+	MSN   string `json:"msn"`
+	MSV   string `json:"msv"`
+	MSU   string `json:"msu"`
 	Name  string `json:"name"`
+	Unit  string `json:"unit"`
+	Desc  string `json:"desc"`
 	Agg   string `json:"agg"`
 	Filt  Filt   `json:"filt"`
 }
+
+// InstC: an instrument as requested from the Meter (sn, sv, su).
 type InstC struct {
 	Name string `json:"name"`
 	Kind string `json:"kind"`
 	Num  string `json:"num"`
+	Unit string `json:"unit"`
+	Desc string `json:"desc"`
+	SN   string `json:"sn"`
+	SV   string `json:"sv"`
+	SU   string `json:"su"`
 }
 type Cfg struct {
 	Limit int     `json:"limit"`
@@ -74,7 +91,12 @@ type Point struct {
 	Mx    int64          `json:"mx"`
 }
 type Metric struct {
-	Name string  `json:"name"`
+	Name string  `json:"name"` // lower-cased: names are case-insensitive
+	Desc string  `json:"desc"`
+	Unit string  `json:"unit"`
+	SN   string  `json:"sn"`
+	SV   string  `json:"sv"`
+	SU   string  `json:"su"`
 	Num  string  `json:"num"`
 	Agg  string  `json:"agg"`
 	Temp string  `json:"temp"`
@@ -293,57 +315,75 @@ func newWorld(cfg Cfg, keys []string, rep int, seed int64) *world {
 	w.reader = sdkmetric.NewManualReader(sdkmetric.WithTemporalitySelector(func(sdkmetric.InstrumentKind) metricdata.Temporality { return temp }))
 	opts := []sdkmetric.Option{sdkmetric.WithReader(w.reader)}
 	for _, v := range cfg.Views {
-		crit := sdkmetric.Instrument{Name: v.MName}
-		if v.MKind != "" {
-			crit.Kind = kindOf[v.MKind]
-		}
-		opts = append(opts, sdkmetric.WithView(sdkmetric.NewView(crit,
-			sdkmetric.Stream{Name: v.Name, Aggregation: aggOf(v.Agg), AttributeFilter: filterOf(v.Filt, keys, rep)})))
+		opts = append(opts, sdkmetric.WithView(viewOf(v, keys, rep)))
 	}
 	// the limit is read from the environment when an aggregator is created, i.e. during instrument
 	// creation; it is set before the provider is built and left alone for the whole scenario
 	setLimitEnv(cfg.Limit, rep)
 	w.mp = sdkmetric.NewMeterProvider(opts...)
-	m := w.mp.Meter("c12")
 	ctx := context.Background()
 	w.rec = make([]func(int, []attribute.KeyValue), len(cfg.Insts))
 	w.observe = make([]func(metric.Observer, int, []attribute.KeyValue), len(cfg.Insts))
-	var observables []metric.Observable
+	// one Meter per instrumentation scope; observables are registered with the Meter that made them
+	type scopeK struct{ n, v, u string }
+	meters := map[scopeK]metric.Meter{}
+	var scopeOrder []scopeK
+	observablesOf := map[scopeK][]metric.Observable{}
+	obsIdx := map[scopeK]map[int]bool{}
 	for idx, ic := range cfg.Insts {
 		idx := idx
 		var err error
 		f := ic.Num == "f"
+		sk := scopeK{ic.SN, ic.SV, ic.SU}
+		m, ok := meters[sk]
+		if !ok || rep%7 == 3 { // asking for the same scope again returns the same Meter
+			mo := []metric.MeterOption{}
+			if ic.SV != "" {
+				mo = append(mo, metric.WithInstrumentationVersion(ic.SV))
+			}
+			if ic.SU != "" {
+				mo = append(mo, metric.WithSchemaURL(ic.SU))
+			}
+			m = w.mp.Meter(ic.SN, mo...)
+			if !ok {
+				scopeOrder = append(scopeOrder, sk)
+				obsIdx[sk] = map[int]bool{}
+			}
+			meters[sk] = m
+		}
+		var observables []metric.Observable
+		ou, od := metric.WithUnit(ic.Unit), metric.WithDescription(ic.Desc)
 		switch ic.Kind {
 		case "counter":
 			if f {
 				var c metric.Float64Counter
-				c, err = m.Float64Counter(ic.Name)
+				c, err = m.Float64Counter(ic.Name, ou, od)
 				w.rec[idx] = func(v int, kvs []attribute.KeyValue) { c.Add(ctx, float64(v), metric.WithAttributes(kvs...)) }
 			} else {
 				var c metric.Int64Counter
-				c, err = m.Int64Counter(ic.Name)
+				c, err = m.Int64Counter(ic.Name, ou, od)
 				w.rec[idx] = func(v int, kvs []attribute.KeyValue) { c.Add(ctx, int64(v), metric.WithAttributes(kvs...)) }
 			}
 		case "updown":
 			if f {
 				var c metric.Float64UpDownCounter
-				c, err = m.Float64UpDownCounter(ic.Name)
+				c, err = m.Float64UpDownCounter(ic.Name, ou, od)
 				w.rec[idx] = func(v int, kvs []attribute.KeyValue) { c.Add(ctx, float64(v), metric.WithAttributes(kvs...)) }
 			} else {
 				var c metric.Int64UpDownCounter
-				c, err = m.Int64UpDownCounter(ic.Name)
+				c, err = m.Int64UpDownCounter(ic.Name, ou, od)
 				w.rec[idx] = func(v int, kvs []attribute.KeyValue) { c.Add(ctx, int64(v), metric.WithAttributes(kvs...)) }
 			}
 		case "histogram":
 			if f {
 				var c metric.Float64Histogram
-				c, err = m.Float64Histogram(ic.Name)
+				c, err = m.Float64Histogram(ic.Name, ou, od)
 				w.rec[idx] = func(v int, kvs []attribute.KeyValue) {
 					c.Record(ctx, float64(v), metric.WithAttributeSet(attribute.NewSet(kvs...)))
 				}
 			} else {
 				var c metric.Int64Histogram
-				c, err = m.Int64Histogram(ic.Name)
+				c, err = m.Int64Histogram(ic.Name, ou, od)
 				w.rec[idx] = func(v int, kvs []attribute.KeyValue) {
 					c.Record(ctx, int64(v), metric.WithAttributeSet(attribute.NewSet(kvs...)))
 				}
@@ -351,11 +391,11 @@ func newWorld(cfg Cfg, keys []string, rep int, seed int64) *world {
 		case "gauge":
 			if f {
 				var c metric.Float64Gauge
-				c, err = m.Float64Gauge(ic.Name)
+				c, err = m.Float64Gauge(ic.Name, ou, od)
 				w.rec[idx] = func(v int, kvs []attribute.KeyValue) { c.Record(ctx, float64(v), metric.WithAttributes(kvs...)) }
 			} else {
 				var c metric.Int64Gauge
-				c, err = m.Int64Gauge(ic.Name)
+				c, err = m.Int64Gauge(ic.Name, ou, od)
 				w.rec[idx] = func(v int, kvs []attribute.KeyValue) { c.Record(ctx, int64(v), metric.WithAttributes(kvs...)) }
 			}
 		case "ocounter", "oupdown", "ogauge":
@@ -366,11 +406,11 @@ func newWorld(cfg Cfg, keys []string, rep int, seed int64) *world {
 				var o metric.Float64Observable
 				switch ic.Kind {
 				case "ocounter":
-					o, err = m.Float64ObservableCounter(ic.Name)
+					o, err = m.Float64ObservableCounter(ic.Name, ou, od)
 				case "oupdown":
-					o, err = m.Float64ObservableUpDownCounter(ic.Name)
+					o, err = m.Float64ObservableUpDownCounter(ic.Name, ou, od)
 				default:
-					o, err = m.Float64ObservableGauge(ic.Name)
+					o, err = m.Float64ObservableGauge(ic.Name, ou, od)
 				}
 				observables = append(observables, o)
 				w.observe[idx] = func(ob metric.Observer, v int, kvs []attribute.KeyValue) {
@@ -380,11 +420,11 @@ func newWorld(cfg Cfg, keys []string, rep int, seed int64) *world {
 				var o metric.Int64Observable
 				switch ic.Kind {
 				case "ocounter":
-					o, err = m.Int64ObservableCounter(ic.Name)
+					o, err = m.Int64ObservableCounter(ic.Name, ou, od)
 				case "oupdown":
-					o, err = m.Int64ObservableUpDownCounter(ic.Name)
+					o, err = m.Int64ObservableUpDownCounter(ic.Name, ou, od)
 				default:
-					o, err = m.Int64ObservableGauge(ic.Name)
+					o, err = m.Int64ObservableGauge(ic.Name, ou, od)
 				}
 				observables = append(observables, o)
 				w.observe[idx] = func(ob metric.Observer, v int, kvs []attribute.KeyValue) {
@@ -397,19 +437,41 @@ func newWorld(cfg Cfg, keys []string, rep int, seed int64) *world {
 		if err != nil {
 			panic(fmt.Sprintf("instrument %v: %v", ic, err))
 		}
+		if len(observables) > 0 {
+			observablesOf[sk] = append(observablesOf[sk], observables...)
+			obsIdx[sk][idx] = true
+		}
 	}
-	if len(observables) > 0 {
-		_, err := m.RegisterCallback(func(_ context.Context, ob metric.Observer) error {
+	for _, sk := range scopeOrder {
+		if len(observablesOf[sk]) == 0 {
+			continue
+		}
+		mine := obsIdx[sk]
+		_, err := meters[sk].RegisterCallback(func(_ context.Context, ob metric.Observer) error {
 			for _, p := range w.pending {
-				w.observe[p.idx](ob, p.v, p.attrs)
+				if mine[p.idx] {
+					w.observe[p.idx](ob, p.v, p.attrs)
+				}
 			}
 			return nil
-		}, observables...)
+		}, observablesOf[sk]...)
 		if err != nil {
 			panic(fmt.Sprintf("register callback: %v", err))
 		}
 	}
 	return w
+}
+
+// viewOf builds the real view from the abstract criteria and mask. Zero-valued abstract fields stay
+// zero-valued in the real criteria / mask.
+func viewOf(v ViewC, keys []string, rep int) sdkmetric.View {
+	crit := sdkmetric.Instrument{Name: v.MName, Unit: v.MUnit, Description: v.MDesc}
+	if v.MKind != "" {
+		crit.Kind = kindOf[v.MKind]
+	}
+	crit.Scope.Name, crit.Scope.Version, crit.Scope.SchemaURL = v.MSN, v.MSV, v.MSU
+	return sdkmetric.NewView(crit, sdkmetric.Stream{Name: v.Name, Unit: v.Unit, Description: v.Desc,
+		Aggregation: aggOf(v.Agg), AttributeFilter: filterOf(v.Filt, keys, rep)})
 }
 
 func (w *world) measure(op Op) {
@@ -535,6 +597,10 @@ func project(rm *metricdata.ResourceMetrics, keys []string) []Metric {
 			if len(pm.Pts) == 0 {
 				continue // a stream without data points carries no information the statement constrains
 			}
+			// instrument / stream names are case-insensitive: the projection compares them lower-cased
+			pm.Name = strings.ToLower(m.Name)
+			pm.Desc, pm.Unit = m.Description, m.Unit
+			pm.SN, pm.SV, pm.SU = sm.Scope.Name, sm.Scope.Version, sm.Scope.SchemaURL
 			out = append(out, pm)
 		}
 	}
@@ -551,7 +617,8 @@ func canonMetrics(ms []Metric) []string {
 			pts = append(pts, string(b))
 		}
 		sort.Strings(pts)
-		out = append(out, fmt.Sprintf("%s/%s/%s/%s/%v %s", m.Name, m.Num, m.Agg, m.Temp, m.Mono, strings.Join(pts, " ")))
+		out = append(out, fmt.Sprintf("%q/%q/%q/%q/%q/%q/%s/%s/%s/%v %s", m.SN, m.SV, m.SU, m.Name, m.Desc, m.Unit, m.Num, m.Agg, m.Temp, m.Mono,
+			strings.Join(pts, " ")))
 	}
 	sort.Strings(out)
 	return out
